@@ -9,6 +9,7 @@ import (
 	"encoding/xml"
 	"fmt"
 	"io"
+	"net"
 	"regexp"
 	"runtime"
 	"runtime/debug"
@@ -132,6 +133,8 @@ type envT struct {
 	Ready   bool     // a partner for the handler's hand-over is there (consumer / released iterator)
 	Type    string   // stanza type as the multiplexer parsed it
 	OK      bool     // an oracle's answer where the case needs one
+	Full    bool     // the session's local address is a full JID
+	Hist    []string // application-side history (constructors of the model's aop)
 }
 
 type tapLog struct {
@@ -197,9 +200,10 @@ type tapped struct {
 	xmlstream.Encoder
 }
 
-func (w *world) run(comp string, start *xml.StartElement, typ string, r xmlstream.TokenReadEncoder, f func(xmlstream.TokenReadEncoder) error) error {
+func (w *world) run(comp string, start *xml.StartElement, typ string, ok bool, r xmlstream.TokenReadEncoder, f func(xmlstream.TokenReadEncoder) error) error {
 	toks, term := preread(r)
 	v := &Inv{Comp: comp, Toks: toks, Clean: term == io.EOF, Env: w.envFor(comp, typ)}
+	v.Env.OK = ok
 	if start != nil {
 		v.Start = start.Copy()
 	}
@@ -225,7 +229,7 @@ type msgTap struct {
 }
 
 func (t msgTap) HandleMessage(m stanza.Message, r xmlstream.TokenReadEncoder) error {
-	return t.w.run(t.comp, nil, string(m.Type), r, func(rr xmlstream.TokenReadEncoder) error { return t.h.HandleMessage(m, rr) })
+	return t.w.run(t.comp, nil, string(m.Type), true, r, func(rr xmlstream.TokenReadEncoder) error { return t.h.HandleMessage(m, rr) })
 }
 
 func (t msgTap) ForFeatures(node string, f func(info.Feature) error) error {
@@ -242,7 +246,13 @@ type presTap struct {
 }
 
 func (t presTap) HandlePresence(p stanza.Presence, r xmlstream.TokenReadEncoder) error {
-	return t.w.run(t.comp, nil, string(p.Type), r, func(rr xmlstream.TokenReadEncoder) error { return t.h.HandlePresence(p, rr) })
+	// the occupant the application-side history is about is roomJID
+	ours := p.From.String() == roomJID.String()
+	err := t.w.run(t.comp, nil, string(p.Type), ours, r, func(rr xmlstream.TokenReadEncoder) error { return t.h.HandlePresence(p, rr) })
+	if err == nil && ours && p.Type == stanza.UnavailablePresence {
+		t.w.note("AMDepart") // ignored by the model when the occupant was not managed
+	}
+	return err
 }
 
 type iqTap struct {
@@ -252,7 +262,9 @@ type iqTap struct {
 }
 
 func (t iqTap) HandleIQ(iq stanza.IQ, r xmlstream.TokenReadEncoder, start *xml.StartElement) error {
-	return t.w.run(t.comp, start, string(iq.Type), r, func(rr xmlstream.TokenReadEncoder) error { return t.h.HandleIQ(iq, rr, start) })
+	// ibb looks its listener up under the address the request is sent to
+	toLocal := iq.To.String() == t.w.sess.LocalAddr().String()
+	return t.w.run(t.comp, start, string(iq.Type), toLocal, r, func(rr xmlstream.TokenReadEncoder) error { return t.h.HandleIQ(iq, rr, start) })
 }
 
 func (t iqTap) ForFeatures(node string, f func(info.Feature) error) error {
@@ -281,11 +293,30 @@ type world struct {
 	histIDs     []string
 	histReady   bool
 	ibbNoAccept bool
+	ahist       []string // application-side history
+
+	local      jid.JID
+	lst        *ibb.Listener
+	lstOpen    bool
+	conns      []net.Conn
+	expCancel  context.CancelFunc
+	mucCh      chan *muc.Channel
+	mucChan    *muc.Channel
+	hit        *history.Iter
+	rcptCancel context.CancelFunc
+	nbar       int
 
 	done       chan struct{}
 	servePanic string
 	serveStack string
 	serveErr   error
+}
+
+// note records an application-side event in the history the model sees.
+func (w *world) note(ev string) {
+	w.stMu.Lock()
+	w.ahist = append(w.ahist, ev)
+	w.stMu.Unlock()
 }
 
 func (w *world) envFor(comp, typ string) envT {
@@ -298,7 +329,8 @@ func (w *world) envFor(comp, typ string) envT {
 	case "HIbbIQ":
 		ready = !w.ibbNoAccept
 	}
-	return envT{Tracked: append([]string(nil), w.histIDs...), Ready: ready, Type: typ, OK: true}
+	return envT{Tracked: append([]string(nil), w.histIDs...), Ready: ready, Type: typ, OK: true,
+		Full: w.local.Resourcepart() != "", Hist: append([]string(nil), w.ahist...)}
 }
 
 func drain(r xml.TokenReader) {
@@ -384,15 +416,18 @@ func (w *world) options(tap bool) []mux.Option {
 }
 
 // newWorld builds the session and starts Serve (under a recover).
-func newWorld(tap bool) (*world, error) {
-	w := &world{pipe: hx.NewPipe(), log: &tapLog{}, done: make(chan struct{})}
+func newWorld(tap bool, bare bool) (*world, error) {
+	w := &world{pipe: hx.NewPipe(), log: &tapLog{}, done: make(chan struct{}), local: localJID, mucCh: make(chan *muc.Channel, 8)}
+	if bare {
+		w.local = localJID.Bare()
+	}
 	w.ctx, w.stop = context.WithCancel(context.Background())
 	var regPanic string
 	regPanic = hx.Catch(func() { w.mux = mux.New(contentNS, w.options(tap)...) })
 	if regPanic != "" {
 		return nil, fmt.Errorf("registration panicked: %s", regPanic)
 	}
-	s, err := hx.NewReadySession(w.pipe.Sess, contentNS, 0, remoteJID, localJID) // (location, origin): LocalAddr() is localJID
+	s, err := hx.NewReadySession(w.pipe.Sess, contentNS, 0, remoteJID, w.local) // (location, origin): LocalAddr() is w.local
 	if err != nil {
 		return nil, err
 	}
